@@ -433,10 +433,10 @@ def cpp_case(cid, sig, pool, node):
     sigcpp = SIG_CPP[(ret, n)]
     if node[0] == "C":
         body = ("vs::case_body_connect<%s>(%d, \"%s\", {%s}, [](sigc::signal<%s>& sg, vs::Pool& p) "
-                "{ return sigc::signal_connect(sg, %s, &%s::%s%s%d); });"
-                % (sigcpp, cid, spec, vs_, sigcpp, cpp_obj(node[3]), CLS_NAME[node[3][0]],
-                   "k" if (cid + node[2]) % 2 else "m",      # const-method and non-const-method overloads alternate
-                   node[1], node[2]))
+                "{ static int turn = 0; "      # the const-method and the non-const-method overload take turns
+                "return (turn++ %% 2 == 0) ? sigc::signal_connect(sg, %s, &%s::k%s%d) : sigc::signal_connect(sg, %s, &%s::m%s%d); });"
+                % (sigcpp, cid, spec, vs_, sigcpp, cpp_obj(node[3]), CLS_NAME[node[3][0]], node[1], node[2],
+                   cpp_obj(node[3]), CLS_NAME[node[3][0]], node[1], node[2]))
     else:
         body = ("vs::case_body<%s>(%d, \"%s\", {%s}, [](vs::Pool& p) { return %s; });"
                 % (sigcpp, cid, spec, vs_, cpp(node)))
